@@ -21,6 +21,8 @@ pub struct Pass {
     pub sub_evals: u64,
     /// optional short description used as evidence sample
     pub sample: Option<Value>,
+    /// further non-trivial item keys inside this case (e.g. one per script of a batch)
+    pub extra_keys: Vec<u64>,
 }
 
 #[derive(Clone, Debug)]
@@ -79,6 +81,9 @@ impl Engine {
         }
         for k in &p.known {
             *a.known.entry(k.clone()).or_insert(0) += 1;
+        }
+        for k in &p.extra_keys {
+            a.nontrivial.insert(*k);
         }
         if p.nontrivial {
             let new = a.nontrivial.insert(p.key);
